@@ -388,6 +388,58 @@ func (p stProp) Gen(r *Rand, idx int, tier string) Sx {
 				continue
 			}
 		}
+		// directed "composite touch" scenario: a composite parent is uploaded and aged into the
+		// old blocks; one of its children gets a fresher copy of its own (uploaded directly);
+		// a composite read of that child must still refresh the PARENT: after old_blocks
+		// further allocations the parent must be readable.
+		if len(comps) > 0 && len(threads) == 0 && len(ops)+16 < nops && r.Chance(map[string]int{"c05": 12}[p.flavor]+5) {
+			big := []int{}
+			for o := 0; o < nobj; o++ {
+				if len(objs[o])*2 >= bs && len(objs[o]) <= bs {
+					big = append(big, o)
+				}
+			}
+			c := comps[r.Intn(len(comps))]
+			if len(big) > 0 {
+				ti := inst()
+				up := func(o, i int) {
+					tid := nextTid
+					nextTid++
+					ops = append(ops, L(A(1), AI(tid), AI(o), AI(i)))
+					for _, ch := range stSplit(r, objs[o]) {
+						ops = append(ops, L(A(2), AI(tid), LBytes(ch)))
+					}
+					ops = append(ops, L(A(3), AI(tid), A(0)))
+				}
+				filler := func() int {
+					o := big[r.Intn(len(big))]
+					if o == c.parent && len(big) > 1 {
+						o = big[(indexOf(big, c.parent)+1+r.Intn(len(big)-1))%len(big)]
+					}
+					return o
+				}
+				up(c.parent, ti)
+				for k := cur + nw + r.Intn(old+1); k > 0; k-- {
+					up(filler(), inst())
+				}
+				sl := append([]Sx(nil), c.slices...)
+				if r.Chance(50) {
+					sl[0], sl[1] = sl[1], sl[0]
+				}
+				child := sl[0].Nth(0).Int() // the child asked for is the first slice the slicer hands back
+				up(child, ti)
+				tid := nextTid
+				nextTid++
+				ops = append(ops, L(A(7), AI(tid), AI(c.parent), AI(ti), AI(child)), L(A(8), AI(tid), L(sl...)))
+				for k := old + r.Intn(2); k > 0; k-- {
+					up(filler(), inst())
+				}
+				tg := nextTid
+				nextTid++
+				ops = append(ops, L(A(4), AI(tg), AI(c.parent), AI(ti)), L(A(5), AI(tg)))
+				continue
+			}
+		}
 		// directed "age, then touch" scenario: an object is uploaded, aged into the old
 		// blocks by complete uploads of large objects, and then read or checked for
 		// existence: the refresh this triggers allocates space itself, and when the
